@@ -165,6 +165,8 @@ class Session:
         r = self.hook("resolve_import", dotted)
         if r is not NotImplemented:
             return r
+        if dotted.split(".")[-1] in EXC_PARENT:
+            return ExcClass(dotted.split(".")[-1])
         if dotted.startswith("mosaik.") or dotted == "mosaik":
             try:
                 return extract.find(dotted)
@@ -359,6 +361,9 @@ class Session:
                             if exc_is(e.cls, exc):
                                 declared = cond
                                 break
+                        if hasattr(contract, "raise_allowed"):
+                            ra = contract.raise_allowed(A, e)
+                            declared = (lambda A_, ra=ra: ra) if ra is not None else None
                         site = (e.site or f"{short}:raise") + vtag
                         if declared is None:
                             p.oblige(f"{site}:unreachable:{e.cls}", "no_raise", False, w,
